@@ -118,10 +118,9 @@ func scribbling(fs lib.FuncSet, doc map[uintptr]bool, produced map[uintptr]bool)
 	for n, f := range fs.Aggr {
 		f := f
 		out.Aggr[n] = func(v []interface{}) (interface{}, error) {
-			cp := append([]interface{}{}, v...)
-			res, err := f(cp)
+			res, err := f(v) // the standard functions only read their argument (keep returns it as it is)
 			if l, ok := res.([]interface{}); ok && cap(l) > 0 {
-				produced[reflect.ValueOf(l).Pointer()] = true
+				produced[reflect.ValueOf(l).Pointer()] = true // includes the argument itself when it is returned: not scribbled then
 			}
 			if cap(v) > 0 {
 				p := reflect.ValueOf(v).Pointer()
